@@ -34,6 +34,24 @@ LEAF_LID = ['leaf_language_from_bytes', 'leaf_script_from_bytes', 'leaf_region_f
             'leaf_from_bytes_overlong']
 BRIDGE_LID = r'::x_(is_language|is_script|is_region|is_variant|eq_lower|eq_upper|eq_title|all_alpha|all_digit|all_alnum|alpha|digit|alnum|lower_b|upper_b)$'
 
+LOCALE_LEAF = [K('locale_unicode_leaf', h) for h in ['leaf_parse_key', 'leaf_parse_type', 'leaf_parse_attribute', 'leaf_is_type_is_attribute', 'leaf_unicode_overlong']] + \
+    [K('locale_transform_leaf', h) for h in ['leaf_parse_tkey', 'leaf_parse_tvalue', 'leaf_is_language_subtag', 'leaf_transform_overlong']] + \
+    [K('locale_private_leaf', h) for h in ['leaf_parse_value', 'leaf_private_overlong']] + \
+    [K('locale_leaf', h) for h in ['leaf_extension_type_from_byte', 'default_is_empty', 'tinystr8_eq_ord_is_text', 'tinystr4_eq_ord_is_text']]
+PRIVATE_BOUNDED = K('locale_private_leaf', 'private_try_from_iter_bounded',
+                    bounded='PrivateExtensionList::try_from_iter (assumed contract on the Verus side): <= 2 subtags of <= 3 symbolic bytes, sort_unstable stubbed by a 2-element sort',
+                    timeout=900, cost='65 s')
+BRIDGE_ALL = r'::x_\w+$'
+LID_LEMMAS = r'::(lemma_(sorted_dedup_variants|var_run\w*|classes_disjoint|lex_\w+|adjacent_\w+|toks_skip|split_nonempty|first_sep_bounds)|first_sep_by|split_by|var_run|lex_le)$'
+LID_PARSER = [V('langid', r'::parser::parse_language_identifier_from_iter$'), V('langid', r'::parser::parse_language_identifier$'),
+              V('langid', r'::LanguageIdentifier::(from_bytes|try_from_iter)$'), V('langid', r'::LanguageIdentifierError::from$'),
+              V('langid', LID_LEMMAS)]
+LOC_LEMMAS = r'::vspec::(lemma_\w+|ext_parse|kv_fold|last_key|tf_end|u_end|u_first_key)$'
+LOC_PARSER = [V('locale', r'::(UnicodeExtensionList|TransformExtensionList)::try_from_iter$'),
+              V('locale', r'::ExtensionsMap::(try_from_iter|from_bytes)$'),
+              V('locale', r'::parser::parse_locale$'), V('locale', r'::Locale::from_bytes$'),
+              V('locale', r'::(LocaleError|ParserError)::from$'), V('locale', LOC_LEMMAS)]
+
 PROPS = {
     'C15': {
         'kani': [K('langid_leaf', h) for h in LEAF_LID + ['leaf_language_default_is_und']],
@@ -44,13 +62,37 @@ PROPS = {
     },
     'C02': {
         'kani': [K('langid_leaf', h) for h in LEAF_LID],
-        'verus': [V('bridge', BRIDGE_LID),
-                  V('langid', r'::parser::parse_language_identifier_from_iter$'),
-                  V('langid', r'::lemma_(sorted_dedup_variants|var_run|classes_disjoint|lex_\w+|adjacent_\w+|toks_skip)$')],
+        'verus': [V('bridge', BRIDGE_LID)] + LID_PARSER,
         'explanation': 'parse_language_identifier_from_iter (verbatim text, loop invariant + decreases) returns exactly the value / error '
                        'the grammar of C02 prescribes for every subtag sequence; leaf contracts are discharged by Kani',
     },
 }
+
+PROPS.update({
+    'C01': {
+        'kani': [K('langid_leaf', h) for h in LEAF_LID + ['leaf_language_default_is_und']] + LOCALE_LEAF + [PRIVATE_BOUNDED],
+        'verus': [V('bridge', BRIDGE_ALL)] + LID_PARSER + LOC_PARSER,
+        'explanation': 'every parser function verifies in Verus, which includes for all inputs: no reachable panic!/unimplemented!/unwrap-on-None, '
+                       'indices in bounds, no overflow, and a decreases measure on every loop (termination, unbounded input length); the byte-level '
+                       'leaf functions are panic-/overflow-/bounds-free for all byte strings by Kani on the real tinystr code',
+    },
+    'C03': {
+        'kani': [K('langid_leaf', h) for h in LEAF_LID] + LOCALE_LEAF + [PRIVATE_BOUNDED],
+        'verus': [V('bridge', BRIDGE_ALL)] + LID_PARSER + LOC_PARSER,
+        'explanation': 'Locale::from_bytes == the recogniser ext_parse/lid grammar written from the UTS #35 productions of the statement: Ok exactly '
+                       'when the recogniser accepts, and the value holds exactly the recognised subtags in normalised form (nothing dropped or '
+                       'reinterpreted); multi-character / repeated / unknown singletons, second tlang, malformed or misplaced subtags => Err',
+    },
+    'C13': {
+        'kani': [K('langid_leaf', h) for h in LEAF_LID] + [K('locale_leaf', 'default_is_empty')],
+        'verus': LID_PARSER + [V('locale', r'::parser::parse_locale$'), V('locale', r'::Locale::from_bytes$'),
+                               V('locale', r'::ExtensionsMap::try_from_iter$'),
+                               V('locale', r'::lemma_c13_\w+$'), V('locale', r'::lemma_var_run_take$'),
+                               V('locale', r'::(Locale|LanguageIdentifier)::from$')],
+        'explanation': 'both parsers share the verified parse_language_identifier_from_iter; lemma_c13_superset/_reject/_prefix derive the three clauses '
+                       'from the two contracts; the From conversions are verified verbatim',
+    },
+})
 
 NOT_APPLICABLE = {
     'C16': 'compile-time macro expansion (proc_macro::TokenStream, compile success/failure) is outside any function contract; see DESIGN.md',
